@@ -23,6 +23,8 @@ type c06Gen struct {
 	pkg  string
 	objs []string // object names of the package being mutated
 	rate int      // injection rate (percent per visited node)
+	memo []ast.Type // union shapes already planted in this schema (re-used on purpose: passes that
+	// generate one object per union SHAPE take a different path on the second occurrence)
 }
 
 func (c *c06Gen) leaf() ast.Type {
@@ -83,8 +85,39 @@ func (c *c06Gen) constant() ast.Type {
 	return t
 }
 
-// template returns one of the deep shapes
+// plainUnion: a union of two or three distinct leaf types, no null branch
+func (c *c06Gen) plainUnion() ast.Type {
+	pool := []ast.Type{ast.String(), ast.Bool(), ast.NewScalar(ast.KindInt64), ast.NewScalar(ast.KindFloat64), ast.NewArray(ast.String()), ast.NewMap(ast.String(), ast.Bool())}
+	if len(c.objs) > 0 {
+		pool = append(pool, ast.NewRef(c.pkg, pick(c.r, c.objs)))
+	}
+	start := c.r.intn(len(pool))
+	n := 2 + c.r.intn(2)
+	bs := ast.Types{}
+	for i := 0; i < n; i++ {
+		bs = append(bs, pool[(start+i)%len(pool)].DeepCopy())
+	}
+	return ast.NewDisjunction(bs)
+}
+
+// template returns one of the deep shapes; unions are remembered per schema and re-used
 func (c *c06Gen) template() ast.Type {
+	if len(c.memo) > 0 && c.r.chance(25) {
+		t := pick(c.r, c.memo).DeepCopy()
+		t.Nullable = false
+		return t
+	}
+	t := c.freshTemplate()
+	if t.Kind == ast.KindDisjunction && len(c.memo) < 8 {
+		c.memo = append(c.memo, t.DeepCopy())
+	}
+	return t
+}
+
+func (c *c06Gen) freshTemplate() ast.Type {
+	if c.r.chance(15) {
+		return c.plainUnion()
+	}
 	switch c.r.intn(14) {
 	case 0: // union under array under union branch
 		return ast.NewDisjunction(ast.Types{ast.String(), ast.NewArray(ast.NewDisjunction(ast.Types{ast.NewScalar(ast.KindInt64), ast.Bool()}))})
@@ -177,6 +210,85 @@ func (c *c06Gen) mutate(t ast.Type, depth int) ast.Type {
 		}
 	}
 	return t
+}
+
+// collectUnions lists the unions found at any position of t
+func c06CollectUnions(t ast.Type, out *[]ast.Type) {
+	switch t.Kind {
+	case ast.KindArray:
+		if t.Array != nil {
+			c06CollectUnions(t.Array.ValueType, out)
+		}
+	case ast.KindMap:
+		if t.Map != nil {
+			c06CollectUnions(t.Map.ValueType, out)
+		}
+	case ast.KindStruct:
+		if t.Struct != nil {
+			for _, f := range t.Struct.Fields {
+				c06CollectUnions(f.Type, out)
+			}
+		}
+	case ast.KindDisjunction:
+		*out = append(*out, t)
+		if t.Disjunction != nil {
+			for _, b := range t.Disjunction.Branches {
+				c06CollectUnions(b, out)
+			}
+		}
+	case ast.KindIntersection:
+		if t.Intersection != nil {
+			for _, b := range t.Intersection.Branches {
+				c06CollectUnions(b, out)
+			}
+		}
+	}
+}
+
+// repeatUnions plants copies of unions that already occur in the schema (or a fresh plain one,
+// twice) as the types of further struct fields of the same schema, required or not: the same union
+// SHAPE then occurs several times in one schema, at positions with different options.
+func (c *c06Gen) repeatUnions(s *ast.Schema) {
+	found := []ast.Type{}
+	structs := []string{}
+	s.Objects.Iterate(func(k string, o ast.Object) {
+		c06CollectUnions(o.Type, &found)
+		if o.Type.Kind == ast.KindStruct && o.Type.Struct != nil {
+			structs = append(structs, k)
+		}
+	})
+	if len(structs) == 0 {
+		return
+	}
+	if len(found) == 0 || c.r.chance(30) {
+		found = append(found, c.plainUnion())
+	}
+	u := pick(c.r, found)
+	names := []string{"again", "fallback", "alt", "other"}
+	for i := 0; i < 1+c.r.intn(3); i++ {
+		k := pick(c.r, structs)
+		o := s.Objects.Get(k)
+		t := u.DeepCopy()
+		t.Nullable = c.r.chance(10)
+		t.Default = nil
+		f := ast.NewStructField(names[i], t)
+		f.Required = c.r.chance(40)
+		if c.r.chance(30) {
+			f.Type = ast.NewArray(f.Type)
+		}
+		dup := false
+		for _, e := range o.Type.Struct.Fields {
+			if e.Name == f.Name {
+				dup = true
+			}
+		}
+		if dup {
+			continue
+		}
+		// a fresh field slice: the object's struct pointer stays, the slice grows
+		o.Type.Struct.Fields = append(append([]ast.StructField{}, o.Type.Struct.Fields...), f)
+		s.Objects.Set(k, o)
+	}
 }
 
 // bundle adds a small family of related objects to the schema
@@ -342,6 +454,9 @@ func c06GenCase(r *rng, tier string) ast.Schemas {
 		if r.chance(35) {
 			c.bundle(s)
 		}
+		if r.chance(30) {
+			c.repeatUnions(s)
+		}
 	}
 	c06BreakCycles(ss)
 	if c06HasCycle(ss) { // last resort: never hand a diverging input to cog
@@ -457,6 +572,61 @@ func c06FeatureString(ss ast.Schemas) string {
 			f.walk(o.Type, 0, false, false, true)
 		})
 	}
+	// the same union shape (same generated type name) several times in one schema; and at least one
+	// occurrence that is the type of a non-required field and has no null branch
+	repeated, repeatedOptional := false, false
+	for _, s := range ss {
+		count := map[string]int{}
+		optional := map[string]bool{}
+		var walk func(t ast.Type, optionalField bool)
+		walk = func(t ast.Type, optionalField bool) {
+			switch t.Kind {
+			case ast.KindArray:
+				if t.Array != nil {
+					walk(t.Array.ValueType, false)
+				}
+			case ast.KindMap:
+				if t.Map != nil {
+					walk(t.Map.ValueType, false)
+				}
+			case ast.KindStruct:
+				if t.Struct != nil {
+					for _, fd := range t.Struct.Fields {
+						walk(fd.Type, !fd.Required)
+					}
+				}
+			case ast.KindIntersection:
+				if t.Intersection != nil {
+					for _, b := range t.Intersection.Branches {
+						walk(b, false)
+					}
+				}
+			case ast.KindDisjunction:
+				if t.Disjunction != nil {
+					name := ""
+					for i, b := range t.Disjunction.Branches {
+						if i > 0 {
+							name += "Or"
+						}
+						name += ast.TypeName(b)
+					}
+					count[name]++
+					if optionalField && !t.Disjunction.Branches.HasNullType() {
+						optional[name] = true
+					}
+				}
+			}
+		}
+		s.Objects.Iterate(func(_ string, o ast.Object) { walk(o.Type, false) })
+		for n, k := range count {
+			if k >= 2 {
+				repeated = true
+				if optional[n] {
+					repeatedOptional = true
+				}
+			}
+		}
+	}
 	flags := []string{fmt.Sprintf("depth%d", f.maxDepth)}
 	add := func(b bool, n string) {
 		if b {
@@ -477,6 +647,8 @@ func c06FeatureString(ss ast.Schemas) string {
 	add(f.structBranchUnion, "struct-branch-union")
 	add(f.aliasObj, "alias-object")
 	add(f.weirdEnumName, "special-enum-name")
+	add(repeated, "repeated-union-shape")
+	add(repeatedOptional, "repeated-union-shape-on-optional-field")
 	out := ""
 	for i, s := range flags {
 		if i > 0 {
